@@ -49,7 +49,8 @@ def main_for(prop, argv=None, level="other"):
                 "buffers.OverflowableBuffer.close", "buffers.FileBasedBuffer.__len__", "buffers.FileBasedBuffer.append", "buffers.FileBasedBuffer.get",
                 "buffers.FileBasedBuffer.skip", "buffers.FileBasedBuffer.__init__"]
         res3 = world.run_functions(ck, ["buffers"], bufs, timeout=20)
-        world.report(ck, res3)
+        from vlib.modelreplay import make_replayer
+        world.report(ck, res3, replayer=make_replayer(ck, ["buffers"]))
         ck.trusted.append("file model (content, pos) of contracts/buffers.py for BytesIO / TemporaryFile (assumed; exercised by C17's bounded stand-in)")
     if prop == "C13":
         # listener safety: socket errors on accept / option calls / channel set-up never escape handle_accept nor stop the listener
